@@ -328,3 +328,27 @@ func PosOf(n ast.Node) token.Pos {
 	}
 	return n.Pos()
 }
+
+// PointOf returns the CFG point whose node contains n (outside function literals).
+func (f *Fn) PointOf(n ast.Node) (Point, bool) {
+	for _, b := range f.G.Blocks {
+		if !b.Live {
+			continue
+		}
+		for i, x := range b.Nodes {
+			if x.Pos() <= n.Pos() && n.End() <= x.End() {
+				found := false
+				Inner(x, func(y ast.Node) bool {
+					if y == n {
+						found = true
+					}
+					return !found
+				})
+				if found {
+					return Point{b, i}, true
+				}
+			}
+		}
+	}
+	return Point{}, false
+}
